@@ -22,6 +22,7 @@ mod c10;
 mod c07;
 mod c17;
 mod c12;
+mod c04;
 
 fn main() {
     let args: Vec<String> = std::env::args().collect();
@@ -51,6 +52,7 @@ fn main() {
         "c07" => c07::main(rest),
         "c17" => c17::main(rest),
         "c12" => c12::main(rest),
+        "c04" => c04::main(rest),
         other => {
             eprintln!("unknown property {other}");
             std::process::exit(2);
